@@ -22,6 +22,7 @@ import asyncio
 import logging
 import re
 import types
+import zlib
 from collections.abc import Awaitable, Callable
 from typing import Optional, Type, cast
 
@@ -736,6 +737,7 @@ class _GzipMessageDelegate(httputil.HTTPMessageDelegate):
         self._chunk_size = chunk_size
         self._max_body_size = max_body_size
         self._decompressed_body_size = 0
+        self._compressed_body_size = 0
         self._decompressor: GzipDecompressor | None = None
 
     def headers_received(
@@ -755,10 +757,14 @@ class _GzipMessageDelegate(httputil.HTTPMessageDelegate):
     async def data_received(self, chunk: bytes) -> None:
         if self._decompressor:
             compressed_data = chunk
+            self._compressed_body_size += len(chunk)
             while compressed_data:
-                decompressed = self._decompressor.decompress(
-                    compressed_data, self._chunk_size
-                )
+                try:
+                    decompressed = self._decompressor.decompress(
+                        compressed_data, self._chunk_size
+                    )
+                except zlib.error as e:
+                    raise httputil.HTTPInputError("invalid gzip body: %s" % e)
                 if decompressed:
                     self._decompressed_body_size += len(decompressed)
                     if self._decompressed_body_size > self._max_body_size:
@@ -789,6 +795,13 @@ class _GzipMessageDelegate(httputil.HTTPMessageDelegate):
                 raise ValueError(
                     "decompressor.flush returned data; possible truncated input"
                 )
+            if self._compressed_body_size and not self._decompressor.eof:
+                # zlib's flush() does not complain about a stream that simply
+                # stops early. Report it like a connection that was closed
+                # before the body was complete instead of delivering a
+                # silently truncated body.
+                self._delegate.on_connection_close()
+                raise httputil.HTTPInputError("truncated gzip body")
         return self._delegate.finish()
 
     def on_connection_close(self) -> None:
